@@ -343,7 +343,8 @@ class ArithOracle:
                 return None
             return {"a": label_dict(a), "b": label_dict(b), "adims": list(a.dims), "bdims": list(b.dims),
                     "acoords": {d: np.array(a.coords[d]) for d in a.dims},
-                    "bcoords": {d: np.array(b.coords[d]) for d in b.dims}}
+                    "bcoords": {d: np.array(b.coords[d]) for d in b.dims},
+                    "snaps": {i: deep_snap(st.objs[i]) for i in {op["lhs"], op["rhs"]} if i != op.get("out")}}
         if o in ("scalarop", "arrayop"):
             a = st.objs.get(op["obj"])
             return None if a is None else {"s": deep_snap(a)}
@@ -354,6 +355,11 @@ class ArithOracle:
             return []
         o, sig = op["op"], op_sig(op)
         if o == "binop":
+            # an operand re-laid-out by the operation gives every LATER use of it values at other labels
+            for i, sn in pre["snaps"].items():
+                ch = snap_diff(sn, deep_snap(st.objs[i])) if i in st.objs else ["gone"]
+                if ch:
+                    return ["C04:operand-changed-by-operation:%s:%s" % ("+".join(ch), sig)]
             shared = [d for d in pre["adims"] if d in pre["bdims"]]
             mismatch = any(len(pre["acoords"][d]) != len(pre["bcoords"][d]) or
                            not np.allclose(pre["acoords"][d], pre["bcoords"][d]) for d in shared)
